@@ -2,6 +2,7 @@ package main
 
 import (
 	"context"
+	"net/url"
 	"encoding/json"
 	"errors"
 	"fmt"
@@ -164,7 +165,10 @@ func routeOpt(o []any, rng *rand.Rand) fox.RouteOption {
 		}
 		return fox.WithClientIPResolver(nil)
 	case "ann":
-		v := int(o[2].(float64))
+		var v any = int(o[2].(float64))
+		if v == 0 {
+			v = nil // value 0 in the specification = a nil value: the key reads back as nil
+		}
 		switch o[1].(string) {
 		case "k1":
 			return fox.WithAnnotation(annKey1{}, v)
@@ -354,7 +358,7 @@ func checkC19(r *Run) {
 	gen := fmt.Sprintf(`---- MODULE Gen_Options ----
 GenGlobalOpts == { <<"ign", TRUE>>, <<"ign", FALSE>>, <<"red", TRUE>>, <<"red", FALSE>>, <<"res", 1>> }
 GenRouteOpts == { <<"ign", TRUE>>, <<"ign", FALSE>>, <<"red", TRUE>>, <<"red", FALSE>>, <<"res", 2>>, <<"res", 0>>,
-                  <<"ann", "k1", 1>>, <<"ann", "k1", 2>>, <<"ann", "k2", 1>>, <<"ann", "bad", 1>> }
+                  <<"ann", "k1", 1>>, <<"ann", "k1", 2>>, <<"ann", "k1", 0>>, <<"ann", "k2", 1>>, <<"ann", "bad", 1>> }
 GenMaxGlobal == %d
 GenMaxRoute == %d
 GenAnnKeys == {"k1", "k2", "bad"}
@@ -467,19 +471,40 @@ func replayLogVec(r *Run, v logVec, evals *atomic.Int64) {
 			if cs.Route != cs.Router {
 				ro = append(ro, fox.WithClientIPResolver(resolverOpt(cs.Route)))
 			}
-			rt.MustHandle("GET", "/t", did, ro...)
-			rt.MustHandle("GET", "/h", did, fox.WithRedirectTrailingSlash(true))
+			rt.MustHandle("GET", "/t/{x}", did, ro...)
+			rt.MustHandle("GET", "/h/{x}", did, fox.WithRedirectTrailingSlash(true))
+			// a route with a resolver of its own, requested first so that recycled contexts carry its traces
+			rt.MustHandle("GET", "/warm", func(c fox.Context) { c.Writer().WriteHeader(204) }, fox.WithClientIPResolver(idResolver{id: 9}))
 			return rt
 		}
-		q := map[string][2]string{"route": {"GET", "/t"}, "noroute": {"GET", "/nope"}, "nomethod": {"POST", "/h"}, "redirect": {"GET", "/h/"}, "options": {"OPTIONS", "/h"}}[v.Kind]
+		// the last segment is plain, contains a space, or is non-ASCII (sent percent-encoded): the record
+		// carries the request path, not its escaped form
+		seg := []string{"x", "hello world", "caf\u00e9", "a%b"}[int(evals.Load())%4]
+		q := map[string][2]string{"route": {"GET", "/t/" + seg}, "noroute": {"GET", "/nope/" + seg}, "nomethod": {"POST", "/h/" + seg}, "redirect": {"GET", "/h/" + seg + "/"}, "options": {"OPTIONS", "/h/" + seg}}[v.Kind]
 		do := func(rt *fox.Router) *plainWriter {
+			for i := 0; i < 2; i++ {
+				wreq, _ := newRequest("GET", "log.example", "/warm", "")
+				rt.ServeHTTP(newPlainWriter(), wreq)
+			}
 			req, _ := newRequest(q[0], "log.example", q[1], "")
+			if esc := (&url.URL{Path: q[1]}).EscapedPath(); esc != q[1] {
+				req.URL.RawPath = esc
+			}
 			w := newPlainWriter()
 			rt.ServeHTTP(w, req)
 			return w
 		}
 		wWith := do(build(true))
 		recs := capH.take()
+		if len(recs) > 0 { // drop the records of the warm-up requests
+			var kept []capturedRecord
+			for _, rc := range recs {
+				if rc.Attrs["path"] != "/warm" {
+					kept = append(kept, rc)
+				}
+			}
+			recs = kept
+		}
 		handlerSeqWith := handlerSeq
 		wWithout := do(build(false))
 		evals.Add(1)
